@@ -4,10 +4,10 @@ import pipeline
 C01_GEN = {
     "quick": {"VERIF_GEN_A": 2, "VERIF_GEN_H": 1, "VERIF_GEN_F": 1, "VERIF_GEN_E": 2,
               "VERIF_GEN_RANDOM": 3000, "VERIF_GEN_RANDLEN": 4},
-    "quick_drv": ["-max", "8000"],
+    "quick_drv": ["-max", "8000", "-slash"],
     "thorough": {"VERIF_GEN_A": 2, "VERIF_GEN_H": 1, "VERIF_GEN_F": 1, "VERIF_GEN_E": 2,
                  "VERIF_GEN_RANDOM": 40000, "VERIF_GEN_RANDLEN": 6},
-    "thorough_drv": [],
+    "thorough_drv": ["-slash"],
 }
 
 
